@@ -227,6 +227,7 @@ def main():
     ap.add_argument("--tier", default=os.environ.get("VERIF_TIER", "quick"))
     ap.add_argument("--explain")
     ap.add_argument("--repo")
+    ap.add_argument("--no-write", action="store_true", help="do not write evidence / replay files (development aid)")
     a = ap.parse_args()
     seed = int(os.environ.get("VERIF_SEED", "0") or 0)
     if a.explain:
@@ -237,7 +238,7 @@ def main():
     if not a.prop:
         ap.error("property id required")
     tier = a.tier if a.tier in ("quick", "thorough") else "quick"
-    status, lines, ev, broken, ctx = run_property(a.prop.upper(), tier, seed, repo=a.repo)
+    status, lines, ev, broken, ctx = run_property(a.prop.upper(), tier, seed, repo=a.repo, write=not a.no_write)
     for l in lines:
         print(l)
     c = ev["coverage"]
